@@ -22,7 +22,10 @@ def gen_cases(chk, n, rules=None, families=None, label='count', tweak=None):
         o = cd.gen_options(rng, rule=rule)
         fam = rng.choice(families) if families else None
         e = cd.gen_election(rng, family=fam)
-        if o['rule'] == 'mpls' and rng.random() < 0.4: cd.add_undeclared(rng, e)
+        if o['rule'] == 'mpls':
+            k = rng.random()
+            if k < 0.35: e = cd.gen_writein_election(rng)
+            elif k < 0.6: cd.add_undeclared(rng, e)
         if o['rule'] in ('meek', 'warren') and rng.random() < 0.25: cd.add_equal_ranks(rng, e)
         if tweak: tweak(rng, e, o)
         cases.append((cd.render_blt(e), o))
